@@ -173,6 +173,7 @@ type R3 struct {
 	V int64
 	S string
 	T bool
+	O *int32
 }
 
 type R2 struct {
